@@ -326,6 +326,13 @@ fn run_cycles(sc: &Value) {
             emit(json!({"ev":"Cycle","i":c,"installs":k,"mmaps_ok":m1.0 - m0.0,"munmaps_ok":m1.1 - m0.1,"foreign":m1.2 - m0.2,
                 "live_after":interpose::owned_live(),"lock":lock_state()}));
         }
+        if interpose::owned_live() > 256 {
+            // hundreds of mappings left behind: the leak is established (every recorded cycle says so); going on would
+            // only make the allocator's search quadratic
+            emit(json!({"ev":"Cycle","i":c,"installs":k,"mmaps_ok":m1.0 - m0.0,"munmaps_ok":m1.1 - m0.1,"foreign":m1.2 - m0.2,
+                "live_after":interpose::owned_live(),"lock":lock_state(),"stopped_early":true}));
+            break;
+        }
     }
     interpose::QUIET_ALL.store(false, SeqCst);
     emit(json!({"ev":"Maps","rwx_before":rwx0,"rwx_after":watch::rwx_anon_count(),"live":interpose::owned_live(),"cycles":cycles}));
